@@ -345,6 +345,36 @@ def run(ctx: Ctx) -> None:
             ctx.check(not bad, "R-C09.3", f"{le.qualname}#set-equality", le.where, {"cases": len(cases), "counterexamples": bad},
                       "change detection of the liveness analysis is not equality of the live-variable sets (fixpoint reached too early or never)")
 
+    # the assignment analysis' change detection (own `eq` or the inherited one) must compare BOTH components:
+    # the maybe-assigned half is part of the result (`maybe_ass_before`), a block whose maybe-set grows must be re-queued
+    ae = assn.find_method("eq")
+    if ae is None:
+        ctx.undecided("R-C09.3", f"{assn.qualname}.eq#pair-equality", assn.where, "no eq method found in the MRO")
+    else:
+        ps = [a.arg for a in ae.node.args.posonlyargs + ae.node.args.args]
+        ev = PyEval(idx, AN)
+        sub = [set(), {"a"}, {"a", "b"}]
+        vals = [(d, m) for d in sub for m in sub if d <= m]
+        bad, und = [], None
+        for v1 in vals:
+            for v2 in vals:
+                try:
+                    out = ev.run_function(ae, {ps[0]: Tok("self", __ident__=1), ps[1]: (set(v1[0]), set(v1[1])), ps[2]: (set(v2[0]), set(v2[1]))})
+                except Unsupported as e:
+                    und = str(e)
+                    break
+                want = v1 == v2
+                if out[0] != "return" or out[1] is not want:
+                    bad.append({"value1": [sorted(v1[0]), sorted(v1[1])], "value2": [sorted(v2[0]), sorted(v2[1])], "eq": out[1] if out[0] == "return" else out[0], "want": want})
+            if und:
+                break
+        if und:
+            ctx.undecided("R-C09.3", f"{ae.qualname}#pair-equality(assignment analysis)", ae.where, und)
+        else:
+            ctx.check(not bad, "R-C09.3", f"{ae.qualname}#pair-equality(assignment analysis)", ae.where, {"cases": len(vals) ** 2, "counterexamples": bad[:3]},
+                      "change detection of the assignment analysis ignores part of the value: a block whose maybe-assigned (or definitely-assigned) set "
+                      "changed is not re-queued, so the result is stale and depends on the visit order")
+
     # ------------------------------------------------------------ R-C09.4 extremal values
     ai = assn.methods.get("initial")
     rets = [r.value for r in walk_no_nested(ai.node) if isinstance(r, ast.Return)] if ai else []
